@@ -14,7 +14,7 @@ LEVEL_TEXT = ("Proved in Coq for every schedule (label list), every number of la
               "ones whose second.process never suspends — each layer delivers exactly the sequential run of its processors on what it "
               "received, per origin in order; end to end the Ok items are the chain specification), C13_outside_known (any shape, any "
               "schedule without an item-dropping Recv), C13_loss_accounting (an intermediate item can disappear only with a next() future "
-              "dropped during the hand-over), C13_progress (non-quiescent states have an enabled step), C13_composed_refuted (witness "
+              "dropped during the hand-over), C13_prefix_any_time (at every reachable state of a loss-free run a layer's emitted next()-outputs are a prefix of the sequential result: never a duplicate, never out of order), C13_progress (non-quiescent states have an enabled step), C13_composed_refuted (witness "
               "schedule: ComposedProcessors with a suspending second.process loses an item). Tie to the code: harness-defined processors "
               "(FIFO, group-reversing, failing in process/next, per-item yield-count delays) on the real Buffer, ComposedProcessors, "
               "PipelineBuilder and layered ProcessorStreams; the observed event trace must be a trace of the model ending quiescent with the "
@@ -30,8 +30,8 @@ ASSUMPTIONS = ["tokio select!: a ready branch wins, the other future is dropped 
 TRUSTED = ["modelled not verified: tokio select!/mpsc/Notify semantics, the glue between layers (Ok items forwarded, errors leave the chain)",
            "trace instrumentation lives in the harness-defined processors / source / glue closures (the anchored code is unmodified, no hook needed)"]
 RULE = ("random streams of 1..3 layers (single or two composed processors per Buffer; FIFO / reverse-groups-of-k; process and next failures; "
-        "per-item process delays, next delays, arrival gaps, consumer pauses all counted in yield_now) over 1..8 (quick) / 1..20 (thorough) "
-        "distinct inputs; quick 170 random + 33 directed, thorough 1500 + 66; non-trivial = at least two inputs entered before the first "
+        "per-item process delays, next delays, arrival gaps, consumer pauses all counted in yield_now) over 1..8 (quick) / 1..16 (thorough) "
+        "distinct inputs; quick 170 random + 33 directed, thorough 800 + 66; non-trivial = at least two inputs entered before the first "
         "output left, or an item was dropped, or a failure output occurred")
 COQ_SHARD = 40
 NONTRIVIAL_FLOOR = 20
@@ -103,7 +103,7 @@ def _directed(tier):
 def gen(tier, rng):
     for c in _directed(tier):
         yield c
-    nrand, maxn = (170, 8) if tier == "quick" else (1500, 20)
+    nrand, maxn = (170, 8) if tier == "quick" else (800, 16)
     for i in range(nrand):
         yield _case(rng, maxn, force="C" if i % 5 == 0 else None)
 
